@@ -2,6 +2,7 @@ SPECIFICATION HSpec
 CONSTANTS
   Locked = TRUE
   Bodies <- BodiesH
+  Modes <- OnlyAnsi
   TickMs <- Ticks1
   MaxTicks = 2
   MaxPre = 99
